@@ -698,6 +698,146 @@ def _record_classes(tree: ast.Module) -> Dict[str, List[str]]:
     return out
 
 
+def _lift_record_behaviour(tree: ast.Module) -> List[str]:
+    """A module-private record class (`_Name`, NamedTuple / dataclass without custom construction) that carries properties
+    and plain methods which never store through self:  for  v = _Name(a, b)  bound once in a function and used only as
+    v.<field> / v.<property> / v.<method>(...),  each property and method becomes a module-level function over the fields
+    (`_Name__prop(file, root)`), the uses are rewritten to calls of these functions with the constructor's arguments, and the
+    ordinary helper inlining takes it from there.  Returns the names of the generated functions."""
+    records = _record_classes(tree)
+    made: List[str] = []
+    new_functions: List[ast.FunctionDef] = []
+    for cls in [c for c in tree.body if isinstance(c, ast.ClassDef) and c.name in records and c.name.startswith("_")]:
+        fields = records[cls.name]
+        methods = {m.name: m for m in cls.body if isinstance(m, ast.FunctionDef)}
+        props = {n for n, m in methods.items() if any(isinstance(d, ast.Name) and d.id == "property" for d in m.decorator_list)}
+        if not methods or any(m.decorator_list and n not in props for n, m in methods.items()) \
+                or any(n.startswith("__") for n in methods):
+            continue
+        ok = True
+        for m in methods.values():
+            if not m.args.args or m.args.vararg or m.args.kwarg or m.args.kwonlyargs or m.args.posonlyargs:
+                ok = False
+            sn = m.args.args[0].arg if m.args.args else "self"
+            for n in ast.walk(m):
+                if isinstance(n, ast.Attribute) and isinstance(n.value, ast.Name) and n.value.id == sn:
+                    if isinstance(n.ctx, (ast.Store, ast.Del)) or (n.attr not in fields and n.attr not in methods):
+                        ok = False
+                elif isinstance(n, ast.Name) and n.id == sn and not any(
+                        isinstance(p_, ast.Attribute) and p_.value is n for p_ in ast.walk(m)):
+                    ok = False              # self used as a value
+        if not ok:
+            continue
+
+        def fname(name, cname=cls.name):
+            return f"{cname}__{name}"
+
+        def lift(m: ast.FunctionDef) -> ast.FunctionDef:
+            sn = m.args.args[0].arg
+
+            class L(ast.NodeTransformer):
+                def visit_Call(self, c):
+                    self.generic_visit(c)
+                    f = c.func
+                    if isinstance(f, ast.Attribute) and isinstance(f.value, ast.Name) and f.value.id == sn and f.attr in methods \
+                            and f.attr not in props:
+                        return ast.copy_location(ast.Call(func=ast.Name(id=fname(f.attr), ctx=ast.Load()),
+                                                          args=[ast.Name(id=x, ctx=ast.Load()) for x in fields] + list(c.args),
+                                                          keywords=list(c.keywords)), c)
+                    return c
+
+                def visit_Attribute(self, n):
+                    self.generic_visit(n)
+                    if isinstance(n.value, ast.Name) and n.value.id == sn and isinstance(n.ctx, ast.Load):
+                        if n.attr in fields:
+                            return ast.copy_location(ast.Name(id=n.attr, ctx=ast.Load()), n)
+                        if n.attr in props:
+                            return ast.copy_location(ast.Call(func=ast.Name(id=fname(n.attr), ctx=ast.Load()),
+                                                              args=[ast.Name(id=x, ctx=ast.Load()) for x in fields], keywords=[]), n)
+                    return n
+            g = copy.deepcopy(m)
+            g.name = fname(m.name)
+            g.decorator_list = []
+            g.args.args = [ast.arg(arg=x) for x in fields] + g.args.args[1:]
+            g.body = [L().visit(st) for st in g.body]
+            return g
+        # locals of the class methods must not collide with field names
+        if any(_assigned_names(m) & set(fields) for m in methods.values()):
+            continue
+        lifted = [lift(m) for m in methods.values()]
+        # rewrite the users
+        used_any = False
+        for fn in [n for n in ast.walk(tree) if isinstance(n, ast.FunctionDef) and not any(n is m for m in methods.values())]:
+            stores: Dict[str, int] = {}
+            for n in ast.walk(fn):
+                if isinstance(n, ast.Name) and isinstance(n.ctx, (ast.Store, ast.Del)):
+                    stores[n.id] = stores.get(n.id, 0) + 1
+            for st in [x for x in ast.walk(fn) if isinstance(x, ast.Assign)]:
+                if not (len(st.targets) == 1 and isinstance(st.targets[0], ast.Name) and stores.get(st.targets[0].id) == 1
+                        and isinstance(st.value, ast.Call) and isinstance(st.value.func, ast.Name) and st.value.func.id == cls.name):
+                    continue
+                v = st.targets[0].id
+                call = st.value
+                if any(isinstance(a, ast.Starred) for a in call.args) or any(k.arg is None for k in call.keywords):
+                    continue
+                argmap = dict(zip(fields, call.args))
+                argmap.update({k.arg: k.value for k in call.keywords})
+                if set(argmap) != set(fields) or not all(_simple_arg(a) for a in argmap.values()):
+                    continue
+                # the constructor's arguments must not be rebound while v is alive (simple names bound once / parameters)
+                roots = set()
+                for a in argmap.values():
+                    while isinstance(a, ast.Attribute):
+                        a = a.value
+                    if isinstance(a, ast.Name):
+                        roots.add(a.id)
+                if any(stores.get(r_, 0) > 1 for r_ in roots):
+                    continue
+                parents = {ch: par for par in ast.walk(fn) for ch in ast.iter_child_nodes(par)}
+                uses = [n for n in ast.walk(fn) if isinstance(n, ast.Name) and n.id == v and isinstance(n.ctx, ast.Load)]
+                if not uses or not all(isinstance(parents.get(u), ast.Attribute) and parents[u].value is u
+                                       and (parents[u].attr in fields or parents[u].attr in methods) for u in uses):
+                    continue
+                argv = [argmap[x] for x in fields]
+
+                class U(ast.NodeTransformer):
+                    def visit_Call(self, c):
+                        self.generic_visit(c)
+                        f = c.func
+                        if isinstance(f, ast.Attribute) and isinstance(f.value, ast.Name) and f.value.id == v and f.attr in methods \
+                                and f.attr not in props:
+                            return ast.copy_location(ast.Call(func=ast.Name(id=fname(f.attr), ctx=ast.Load()),
+                                                              args=[copy.deepcopy(a) for a in argv] + list(c.args),
+                                                              keywords=list(c.keywords)), c)
+                        return c
+
+                    def visit_Attribute(self, n):
+                        self.generic_visit(n)
+                        if isinstance(n.value, ast.Name) and n.value.id == v and isinstance(n.ctx, ast.Load):
+                            if n.attr in fields:
+                                return ast.copy_location(copy.deepcopy(argmap[n.attr]), n)
+                            if n.attr in props:
+                                return ast.copy_location(ast.Call(func=ast.Name(id=fname(n.attr), ctx=ast.Load()),
+                                                                  args=[copy.deepcopy(a) for a in argv], keywords=[]), n)
+                        return n
+                for i, b in enumerate(fn.body):
+                    fn.body[i] = U().visit(b)
+                for owner in ast.walk(fn):
+                    for field in ("body", "orelse", "finalbody"):
+                        blk = getattr(owner, field, None)
+                        if isinstance(blk, list) and any(x is st for x in blk):
+                            blk[:] = [x for x in blk if x is not st] or [ast.Pass()]
+                used_any = True
+        if used_any:
+            new_functions.extend(lifted)
+            made.extend(g.name for g in lifted)
+    if new_functions:
+        idx = max((i for i, n in enumerate(tree.body) if isinstance(n, (ast.Import, ast.ImportFrom))), default=-1) + 1
+        tree.body[idx:idx] = new_functions
+        ast.fix_missing_locations(tree)
+    return made
+
+
 def _dfs(node: ast.AST):
     yield node
     for ch in ast.iter_child_nodes(node):
@@ -884,7 +1024,10 @@ def _inline_module_literals(tree: ast.Module) -> None:
             tgt, v = st.targets[0].id, st.value
         elif isinstance(st, ast.AnnAssign) and isinstance(st.target, ast.Name) and st.value is not None:
             tgt, v = st.target.id, st.value
-        if tgt and count.get(tgt) == 1 and isinstance(v, ast.Constant) and isinstance(v.value, (str, int, bool)) \
+        is_slice = isinstance(v, ast.Call) and isinstance(v.func, ast.Name) and v.func.id == "slice" and not v.keywords \
+            and 1 <= len(v.args) <= 3 and all(isinstance(a, ast.Constant) or (isinstance(a, ast.UnaryOp) and isinstance(a.operand, ast.Constant))
+                                              for a in v.args)
+        if tgt and count.get(tgt) == 1 and ((isinstance(v, ast.Constant) and isinstance(v.value, (str, int, bool))) or is_slice) \
                 and tgt.startswith("_") and not tgt.startswith("__") and tgt.upper() == tgt:
             val[tgt] = v
     if not val:
@@ -893,7 +1036,22 @@ def _inline_module_literals(tree: ast.Module) -> None:
     class T(ast.NodeTransformer):
         def visit_Name(self, n):
             if isinstance(n.ctx, ast.Load) and n.id in val:
-                return ast.copy_location(ast.Constant(value=val[n.id].value), n)
+                return ast.copy_location(copy.deepcopy(val[n.id]), n)
+            return n
+
+        def visit_Subscript(self, n):
+            self.generic_visit(n)
+            sl = n.slice
+            if isinstance(sl, ast.Call) and isinstance(sl.func, ast.Name) and sl.func.id == "slice" and not sl.keywords:
+                # x[slice(a, b)] is x[a:b]
+                a = list(sl.args)
+                none = lambda e: None if (isinstance(e, ast.Constant) and e.value is None) else e
+                if len(a) == 1:
+                    n.slice = ast.Slice(lower=None, upper=none(a[0]), step=None)
+                elif len(a) == 2:
+                    n.slice = ast.Slice(lower=none(a[0]), upper=none(a[1]), step=None)
+                elif len(a) == 3:
+                    n.slice = ast.Slice(lower=none(a[0]), upper=none(a[1]), step=none(a[2]))
             return n
     for node in ast.walk(tree):
         if isinstance(node, ast.FunctionDef):
@@ -1529,6 +1687,77 @@ def _unroll_search_loops(fn: ast.FunctionDef, enum_rows: Dict[str, List[ast.expr
                 ast.fix_missing_locations(new)
                 block[i] = new
                 changed = True
+    return changed
+
+
+def _collect_then_remove(fn: ast.FunctionDef) -> bool:
+    """Two spellings of "remove from L every element for which ...", written as the canonical remove-loop over a copy:
+      U = [x for x in L if c]            ;  for y in U: L.remove(y)
+      U = [] ; for x in L: ... U.append(x) ... ;  for y in U: L.remove(y)       (U used nowhere else)
+    become   for x in copy.copy(L): if c: L.remove(x)   /   the collecting loop over copy.copy(L) with L.remove(x) in place of
+    U.append(x)."""
+    changed = False
+
+    def copy_of(name_node):
+        return ast.Call(func=ast.Attribute(value=ast.Name(id="copy", ctx=ast.Load()), attr="copy", ctx=ast.Load()),
+                        args=[copy.deepcopy(name_node)], keywords=[])
+
+    def removal_loop(st, u, lname):
+        return isinstance(st, ast.For) and not st.orelse and isinstance(st.iter, ast.Name) and st.iter.id == u \
+            and isinstance(st.target, ast.Name) and len(st.body) == 1 and isinstance(st.body[0], ast.Expr) \
+            and isinstance(st.body[0].value, ast.Call) and isinstance(st.body[0].value.func, ast.Attribute) \
+            and st.body[0].value.func.attr == "remove" and isinstance(st.body[0].value.func.value, ast.Name) \
+            and st.body[0].value.func.value.id == lname and len(st.body[0].value.args) == 1 \
+            and isinstance(st.body[0].value.args[0], ast.Name) and st.body[0].value.args[0].id == st.target.id
+
+    def uses(name):
+        return sum(1 for n in ast.walk(fn) if isinstance(n, ast.Name) and n.id == name)
+    for owner in ast.walk(fn):
+        for field in ("body", "orelse", "finalbody"):
+            block = getattr(owner, field, None)
+            if not isinstance(block, list):
+                continue
+            i = 0
+            while i < len(block):
+                st = block[i]
+                # pattern A
+                if i + 1 < len(block) and isinstance(st, ast.Assign) and len(st.targets) == 1 and isinstance(st.targets[0], ast.Name) \
+                        and isinstance(st.value, ast.ListComp) and len(st.value.generators) == 1 and not st.value.generators[0].is_async \
+                        and isinstance(st.value.generators[0].iter, ast.Name) and isinstance(st.value.generators[0].target, ast.Name) \
+                        and isinstance(st.value.elt, ast.Name) and st.value.elt.id == st.value.generators[0].target.id \
+                        and st.value.generators[0].ifs:
+                    u, g = st.targets[0].id, st.value.generators[0]
+                    if removal_loop(block[i + 1], u, g.iter.id) and uses(u) == 2:
+                        cond = g.ifs[0] if len(g.ifs) == 1 else ast.BoolOp(op=ast.And(), values=list(g.ifs))
+                        rm = ast.Expr(value=ast.Call(func=ast.Attribute(value=ast.Name(id=g.iter.id, ctx=ast.Load()), attr="remove", ctx=ast.Load()),
+                                                     args=[ast.Name(id=g.target.id, ctx=ast.Load())], keywords=[]))
+                        new = ast.For(target=ast.Name(id=g.target.id, ctx=ast.Store()), iter=copy_of(g.iter),
+                                      body=[ast.If(test=cond, body=[rm], orelse=[])], orelse=[], type_comment=None)
+                        ast.copy_location(new, st)
+                        ast.fix_missing_locations(new)
+                        block[i:i + 2] = [new]
+                        changed = True
+                        continue
+                # pattern B
+                if i + 2 < len(block) and isinstance(st, ast.Assign) and len(st.targets) == 1 and isinstance(st.targets[0], ast.Name) \
+                        and isinstance(st.value, ast.List) and not st.value.elts and isinstance(block[i + 1], ast.For) \
+                        and not block[i + 1].orelse and isinstance(block[i + 1].iter, ast.Name) and isinstance(block[i + 1].target, ast.Name):
+                    u, loop = st.targets[0].id, block[i + 1]
+                    lname, x = loop.iter.id, loop.target.id
+                    appends = [c for c in ast.walk(loop) if isinstance(c, ast.Call) and isinstance(c.func, ast.Attribute)
+                               and isinstance(c.func.value, ast.Name) and c.func.value.id == u]
+                    if removal_loop(block[i + 2], u, lname) and appends and all(
+                            c.func.attr == "append" and len(c.args) == 1 and isinstance(c.args[0], ast.Name) and c.args[0].id == x
+                            for c in appends) and uses(u) == 2 + len(appends) \
+                            and not any(isinstance(n, (ast.Break, ast.Continue)) for n in ast.walk(loop)):
+                        for c in appends:
+                            c.func = ast.Attribute(value=ast.Name(id=lname, ctx=ast.Load()), attr="remove", ctx=ast.Load())
+                        loop.iter = copy_of(loop.iter)
+                        ast.fix_missing_locations(loop)
+                        block[i:i + 3] = [loop]
+                        changed = True
+                        continue
+                i += 1
     return changed
 
 
@@ -2331,6 +2560,7 @@ def flatten_module(tree: ast.Module, underscore_only: bool = False,
 
 def _flatten_module(tree: ast.Module, imported: Dict[str, ast.FunctionDef]) -> Tuple[ast.Module, List[str]]:
     tree = copy.deepcopy(tree)
+    lifted_names = _lift_record_behaviour(tree)
     helpers = {n.name: n for n in tree.body if isinstance(n, ast.FunctionDef) and _eligible(n, False)}
     for iname, ifn in imported.items():
         if iname not in helpers and _eligible(ifn, False):
@@ -2343,6 +2573,21 @@ def _flatten_module(tree: ast.Module, imported: Dict[str, ast.FunctionDef]) -> T
                               if isinstance(f, ast.FunctionDef) and f.decorator_list and _eligible(f, True)
                               and not any(isinstance(k, ast.ClassDef) and k is not c and any(
                                   isinstance(g, ast.FunctionDef) and g.name == f.name for g in k.body) for k in tree.body)}
+    # ... also reachable through the classes that inherit them (a private mix-in with a classmethod factory)
+    local = {c.name: c for c in tree.body if isinstance(c, ast.ClassDef)}
+    for c in local.values():
+        todo = [b.id for b in c.bases if isinstance(b, ast.Name) and b.id in local]
+        seen_b = set()
+        while todo:
+            b = todo.pop()
+            if b in seen_b:
+                continue
+            seen_b.add(b)
+            for (cn, fn_), f in list(_Inliner.class_helpers.items()):
+                if cn == b and (c.name, fn_) not in _Inliner.class_helpers \
+                        and not any(isinstance(g, ast.FunctionDef) and g.name == fn_ for g in c.body):
+                    _Inliner.class_helpers[(c.name, fn_)] = f
+            todo.extend(x.id for x in local[b].bases if isinstance(x, ast.Name) and x.id in local)
     records = _record_classes(tree)
     _inline_module_literals(tree)
     tables = _module_tables(tree)
@@ -2403,6 +2648,7 @@ def _flatten_module(tree: ast.Module, imported: Dict[str, ast.FunctionDef]) -> T
                         isinstance(x, ast.Name) and x.id == k and isinstance(x.ctx, ast.Load) for x in ast.walk(tree)))
                 _inline_expression_closures(node)  # again: a closure handed to an inlined helper is now called directly
                 _any_to_search_loops(node)
+            _collect_then_remove(node)
             _accumulate_to_comp(node)
             _slice_filters(node)
             _fission(node)
@@ -2576,6 +2822,155 @@ def expand_contextmanagers(tree: ast.Module) -> Tuple[ast.Module, List[str]]:
     tree = copy.deepcopy(tree)
     used = _inline_contextmanagers(tree)
     return tree, used
+
+
+def hoist_walrus(tree: ast.Module) -> ast.Module:
+    """if (v := E) <op> ...: / if (v := E): / elif ... the same:  the assignment expression that is evaluated first and
+    unconditionally in the test is written as the statement `v = E` in front of the `if` (inside the else branch for an elif)."""
+    tree = copy.deepcopy(tree)
+
+    def leftmost(test):
+        """the NamedExpr evaluated first and always, with a function that rebuilds the test around a replacement"""
+        if isinstance(test, ast.NamedExpr) and isinstance(test.target, ast.Name):
+            return test, (lambda rep: rep)
+        if isinstance(test, ast.Compare):
+            r = leftmost(test.left)
+            if r:
+                return r[0], (lambda rep, t=test, f=r[1]: ast.Compare(left=f(rep), ops=t.ops, comparators=t.comparators))
+        if isinstance(test, ast.UnaryOp) and isinstance(test.op, ast.Not):
+            r = leftmost(test.operand)
+            if r:
+                return r[0], (lambda rep, t=test, f=r[1]: ast.UnaryOp(op=t.op, operand=f(rep)))
+        if isinstance(test, ast.BoolOp):
+            r = leftmost(test.values[0])
+            if r:
+                return r[0], (lambda rep, t=test, f=r[1]: ast.BoolOp(op=t.op, values=[f(rep)] + t.values[1:]))
+        return None
+
+    def process(block: List[ast.stmt]) -> None:
+        i = 0
+        while i < len(block):
+            st = block[i]
+            for field in ("body", "orelse", "finalbody"):
+                sub = getattr(st, field, None)
+                if isinstance(sub, list) and not isinstance(st, ast.ClassDef):
+                    process(sub)
+            if isinstance(st, ast.Try):
+                for h in st.handlers:
+                    process(h.body)
+            if isinstance(st, ast.ClassDef):
+                process(st.body)
+            if isinstance(st, ast.If):
+                r = leftmost(st.test)
+                if r is not None:
+                    ne, rebuild = r
+                    assign = ast.Assign(targets=[ast.Name(id=ne.target.id, ctx=ast.Store())], value=ne.value)
+                    st.test = rebuild(ast.Name(id=ne.target.id, ctx=ast.Load()))
+                    ast.copy_location(assign, st)
+                    block.insert(i, assign)
+                    ast.fix_missing_locations(assign)
+                    ast.fix_missing_locations(st)
+                    i += 1
+                    # the same If may carry a further walrus in its (now first) position
+                    continue_same = leftmost(st.test) is not None
+                    if continue_same:
+                        continue
+            i += 1
+    process(tree.body)
+    ast.fix_missing_locations(tree)
+    return tree
+
+
+def expand_functional_idioms(tree: ast.Module) -> ast.Module:
+    """Three library idioms written out:  _f = functools.partial(g, a) at module level (private name, bound once) is g with a
+    as first argument wherever _f is used;  map(F, xs) is (F(x) for x in xs), a map of a map fused into one generator;
+    operator.attrgetter("n") applied to x is x.n, functools.partial(g, a) applied to x is g(a, x).  `*map(...)` and
+    `list(map(...))` become the list comprehension."""
+    tree = copy.deepcopy(tree)
+    count: Dict[str, int] = {}
+    for n in ast.walk(tree):
+        if isinstance(n, ast.Name) and isinstance(n.ctx, (ast.Store, ast.Del)):
+            count[n.id] = count.get(n.id, 0) + 1
+        elif isinstance(n, (ast.Global, ast.Nonlocal)):
+            for g in n.names:
+                count[g] = count.get(g, 0) + 2
+
+    def is_partial(e):
+        return isinstance(e, ast.Call) and ((isinstance(e.func, ast.Attribute) and e.func.attr == "partial") or
+                                            (isinstance(e.func, ast.Name) and e.func.id == "partial")) and e.args \
+            and not any(isinstance(a, ast.Starred) for a in e.args) and not any(k.arg is None for k in e.keywords)
+
+    def is_attrgetter(e):
+        return isinstance(e, ast.Call) and ((isinstance(e.func, ast.Attribute) and e.func.attr == "attrgetter") or
+                                            (isinstance(e.func, ast.Name) and e.func.id == "attrgetter")) \
+            and len(e.args) == 1 and isinstance(e.args[0], ast.Constant) and isinstance(e.args[0].value, str) \
+            and e.args[0].value.isidentifier() and not e.keywords
+
+    partials: Dict[str, ast.Call] = {}
+    for st in tree.body:
+        if isinstance(st, ast.Assign) and len(st.targets) == 1 and isinstance(st.targets[0], ast.Name) \
+                and count.get(st.targets[0].id) == 1 and st.targets[0].id.startswith("_") and is_partial(st.value):
+            partials[st.targets[0].id] = st.value
+
+    def apply(f: ast.expr, arg: ast.expr) -> Optional[ast.expr]:
+        """F(arg) for the function expressions understood here"""
+        if isinstance(f, ast.Name) and f.id in partials:
+            f = partials[f.id]
+        if is_partial(f):
+            return ast.Call(func=copy.deepcopy(f.args[0]), args=[copy.deepcopy(a) for a in f.args[1:]] + [arg],
+                            keywords=[copy.deepcopy(k) for k in f.keywords])
+        if is_attrgetter(f):
+            return ast.Attribute(value=arg, attr=f.args[0].value, ctx=ast.Load())
+        if isinstance(f, (ast.Name, ast.Attribute)):
+            return ast.Call(func=copy.deepcopy(f), args=[arg], keywords=[])
+        return None
+
+    counter = [0]
+
+    def map_to_gen(c: ast.Call) -> Optional[ast.GeneratorExp]:
+        if not (isinstance(c, ast.Call) and isinstance(c.func, ast.Name) and c.func.id == "map" and len(c.args) == 2 and not c.keywords):
+            return None
+        f, xs = c.args
+        inner = map_to_gen(xs) if isinstance(xs, ast.Call) else None
+        if inner is not None and len(inner.generators) == 1 and not inner.generators[0].ifs:
+            elt = apply(f, inner.elt)
+            if elt is None:
+                return None
+            return ast.GeneratorExp(elt=elt, generators=inner.generators)
+        counter[0] += 1
+        var = f"_m{counter[0]}"
+        elt = apply(f, ast.Name(id=var, ctx=ast.Load()))
+        if elt is None:
+            return None
+        return ast.GeneratorExp(elt=elt, generators=[ast.comprehension(target=ast.Name(id=var, ctx=ast.Store()), iter=xs, ifs=[], is_async=0)])
+
+    class T(ast.NodeTransformer):
+        def visit_Call(self, c):
+            # partial names called directly
+            if isinstance(c.func, ast.Name) and c.func.id in partials and not any(isinstance(a, ast.Starred) for a in c.args):
+                p_ = partials[c.func.id]
+                c = ast.copy_location(ast.Call(func=copy.deepcopy(p_.args[0]), args=[copy.deepcopy(a) for a in p_.args[1:]] + list(c.args),
+                                               keywords=[copy.deepcopy(k) for k in p_.keywords] + list(c.keywords)), c)
+            g = map_to_gen(c)
+            if g is not None:
+                self.generic_visit(g)
+                return ast.copy_location(g, c)
+            self.generic_visit(c)
+            # list(<gen>) / *(<gen>)  ->  list comprehension
+            if isinstance(c.func, ast.Name) and c.func.id == "list" and len(c.args) == 1 and isinstance(c.args[0], ast.GeneratorExp) and not c.keywords:
+                return ast.copy_location(ast.ListComp(elt=c.args[0].elt, generators=c.args[0].generators), c)
+            return c
+
+        def visit_Starred(self, n):
+            self.generic_visit(n)
+            if isinstance(n.value, ast.GeneratorExp):
+                n.value = ast.copy_location(ast.ListComp(elt=n.value.elt, generators=n.value.generators), n.value)
+            return n
+    for node in tree.body:
+        if isinstance(node, (ast.FunctionDef, ast.ClassDef)):
+            T().visit(node)
+    ast.fix_missing_locations(tree)
+    return tree
 
 
 def expand_format_calls(tree: ast.Module) -> ast.Module:
